@@ -18,6 +18,42 @@ def _observe(rnd, lines, layout, arcs, now, nwin=3, raw=True, name='f', op='fetc
             lines.append("raw %s %d" % (name, a))
 
 
+def _shared_cases(rnd, prefix, routed):
+    """Two files created from ONE archive list value and written one after the other at different ring
+    phases; each is then read through a fresh handle (every archive, whole retention)."""
+    cases = []
+    for j in range(4):
+        lname, layout = pick_layout(rnd, ['ring2', 'three', 'four', 'tens', 'short3', 'ratioN'], random_share=0.4, levels=rnd.pick([2, 3]))
+        if len(layout) < 2:
+            lname, layout = 'three', list(FIXED_LAYOUTS['three'])
+        k = len(layout)
+        S0, N0 = layout[0]
+        R0 = S0 * N0
+        Rmax = layout[-1][0] * layout[-1][1]
+        now = clock_in_domain(rnd, layout)
+        lines = ["createshared f g %s m %d x %08x" % (fmt_layout(layout), rnd.pick([1, 2, 3]), rnd.pick([0, 0, 0x3f000000]))]
+        for nm in ('f', 'f', 'g', 'g', 'f', 'g'):
+            now = advance(rnd, now, layout)
+            if routed:
+                pts = [(now - rnd.randint(0, Rmax - 1), small_value(rnd)) for _ in range(rnd.randint(1, 4))]
+                lines.append(_many(nm, -1, now, pts) if rnd.chance(0.5) else "upd %s -1 %d %016x %d" % (nm, pts[0][0], pts[0][1], now))
+            else:
+                pts = [(now - rnd.randint(0, R0 - 1), small_value(rnd)) for _ in range(rnd.randint(1, 4))]
+                lines.append(_many(nm, 0, now, pts) if rnd.chance(0.5) else "upd %s 0 %d %016x %d" % (nm, pts[0][0], pts[0][1], now))
+        lines += ["sync f", "sync g", "open f", "open g"]
+        for nm in ('f', 'g'):
+            for a_ in range(k):
+                lines.append("fetch %s %d %d %d %d" % (nm, a_, now - layout[a_][0] * layout[a_][1], now, now))
+        # and one more write through the fresh handle of the later file: what it aggregates is what the file held
+        now = advance(rnd, now, layout)
+        lines.append("upd g %d %d %016x %d" % (-1 if routed else 0, now, fbits(3.0), now))
+        for a_ in range(k):
+            lines.append("fetch g %d %d %d %d" % (a_, now - layout[a_][0] * layout[a_][1], now, now))
+        cases.append({'id': '%s-shared-%d' % (prefix, j), 'lines': lines, 'tags': {'layout': lname, 'levels': k, 'method': 0, 'xff': 'mixed', 'fill': 'shared',
+                                                                               'boundary_ages': 0, 'stale_points': 0, 'ops': {'shared_list': 1}}})
+    return cases
+
+
 def gen_c01(rnd, n, thorough=False):
     """Ring storage in isolation: all writes go to one named archive with ages inside its
     retention (routing trivial, no propagation into the observed archives); observed are that
@@ -256,6 +292,7 @@ def gen_c02(rnd, n, thorough=False):
                     lines.append("drop %s" % name)
             cases.append({'id': 'c02-sweep%d-m%d' % (ratio, m), 'lines': lines,
                           'tags': {'layout': 'sweep%d' % ratio, 'levels': 2, 'method': m, 'xff': 'all', 'ops': {'exhaustive_subsets': nfile}}})
+    cases += _shared_cases(rnd, 'c02', False)
     return cases
 
 
@@ -394,6 +431,7 @@ def gen_c03(rnd, n, thorough=False):
                         lines.append("drop %s" % name)
             cases.append({'id': 'c03-sweepb%d-%d' % (si, now % top), 'lines': lines,
                           'tags': {'layout': 'sweep%d' % si, 'levels': k, 'ops': {'exhaustive_pair': nfile}, 'boundary_ages': 0, 'stale_points': 0}})
+    cases += _shared_cases(rnd, 'c03', True)
     return cases
 
 
@@ -524,6 +562,27 @@ def gen_c04(rnd, n, thorough=False):
                             lines.append("fetch f %d %d %d %d" % (a, fr, un, now))
                 cases.append({'id': 'c04-sweep%d-%d-%s' % (si, now % top, fill), 'lines': lines,
                               'tags': {'layout': 'sweep%d' % si, 'levels': k, 'fill': fill, 'ops': {'exhaustive': len(lines)}}})
+    # an archive first written more than 2^31 s before the fetch (the stored base slot time is that old): the
+    # shape of the answer is decided by the window alone, also when the window contains base + 2^31
+    for j in range(3):
+        lname, layout = pick_layout(rnd, random_share=0.5, max_points=40)
+        k = len(layout)
+        a = rnd.randrange(k)
+        S, N = layout[a]
+        R = S * N
+        t0 = 3 * 10 ** 8 + rnd.randint(0, 10 ** 8)
+        lines = [_create('f', layout, 2, 0x3f000000), "upd f %d %d %016x %d" % (a, t0, fbits(7.0), t0)]
+        base = t0 - t0 % S
+        for d in [0, S, rnd.randint(1, R - 1), R - 1, R + rnd.randint(0, R)]:
+            now = base + 2 ** 31 + d
+            if now >= 2 ** 32:
+                continue
+            lines.append("fetch f %d %d %d %d" % (a, now - R, now, now))
+            lines.append("fetch f %d %d %d %d" % (a, max(now - R, base + 2 ** 31 - S - 1), min(now, base + 2 ** 31 + S), now))
+            fr = rnd.randint(now - R, now - 1)
+            lines.append("fetch f %d %d %d %d" % (a, fr, rnd.randint(fr, now), now))
+        lines += ["sync f", "open f", "fetch f %d %d %d %d" % (a, now - R, now, now)]
+        cases.append({'id': 'c04-oldbase-%d' % j, 'lines': lines, 'tags': {'layout': lname, 'levels': k, 'fill': 'old', 'ops': {'base_2^31_old': len(lines)}}})
     return cases
 
 
